@@ -40,6 +40,7 @@ enum Ty {
     Unit,
     Opt(Box<Ty>),
     Slice(Box<Ty>),
+    Struct(String), // a struct of the file with named fields (iterator state)
     Text,   // &T where T: TextSource
     Source, // &D where D: BidiDataSource
     Other,
@@ -123,6 +124,7 @@ struct FileCtx {
     const_types: BTreeMap<String, Ty>,
     enums: BTreeMap<String, Vec<String>>, // unit-like enums declared in the file
     fns: Vec<FnInfo>,
+    structs: BTreeMap<String, Vec<(String, Ty)>>, // named-field structs of the file
 }
 
 struct Tr<'a> {
@@ -158,6 +160,11 @@ fn is_self(e: &Expr) -> bool {
 fn local_name(e: &Expr) -> Option<String> {
     match strip(e) {
         Expr::Path(p) if p.path.segments.len() == 1 => Some(last_ident(&p.path)),
+        // a named field of `self` (iterator state) is a variable of the translation
+        Expr::Field(f) if is_self(&f.base) => match &f.member {
+            syn::Member::Named(i) => Some(format!("self_{}", i)),
+            _ => None,
+        },
         _ => None,
     }
 }
@@ -219,7 +226,13 @@ impl<'a> Tr<'a> {
                 }
                 Ty::Unknown
             }
-            Expr::Cast(c) => self.infer(&c.expr),
+            Expr::Cast(c) => match self.infer(&c.expr) {
+                Ty::U16 | Ty::Char => Ty::Char,
+                t => t,
+            },
+            Expr::Field(f) if local_name(e).map(|n| self.lookup_local(&n).is_some()).unwrap_or(false) && matches!(f.member, syn::Member::Named(_)) => {
+                self.lookup_local(&local_name(e).unwrap()).unwrap()
+            }
             Expr::Field(f) => {
                 if self.infer(&f.base) == Ty::Level {
                     Ty::U8
@@ -260,6 +273,7 @@ impl<'a> Tr<'a> {
                     "len_utf16" | "len_utf8" => return Ty::Word,
                     "into" => return self.infer(&m.receiver),
                     "next" => return Ty::Opt(Box::new(Ty::Other)),
+                    "char_at" => return Ty::Opt(Box::new(Ty::Unknown)),
                     "bidi_class" if self.infer(&m.receiver) == Ty::Source => return Ty::Class,
                     "len" => return Ty::Word,
                     _ => {}
@@ -370,6 +384,11 @@ impl<'a> Tr<'a> {
                         _ => return Err("tuple projection beyond .2".into()),
                     });
                 }
+                if let Some(n) = local_name(e) {
+                    if self.lookup_local(&n).is_some() {
+                        return Ok(coq_ident(&n));
+                    }
+                }
                 Err("named field access".into())
             }
             Expr::Unary(u) => match u.op {
@@ -433,6 +452,13 @@ impl<'a> Tr<'a> {
                     None => return Err("range without an end".into()),
                 };
                 Ok(format!("(rs_range {} {})", from, to))
+            }
+            Expr::Cast(c) => {
+                // widening casts between unsigned integers / u16 -> u32 / char -> u32 keep the value
+                match (self.infer(&c.expr), ty_of_type(&c.ty, &syn::Generics::default())) {
+                    (Ty::U8, Ty::U8) | (Ty::U16, Ty::Word) | (Ty::U16, Ty::U16) | (Ty::Char, Ty::Word) | (Ty::Word, Ty::Word) | (Ty::Slice(_), _) => self.expr(&c.expr, b),
+                    (a, t) => Err(format!("cast from {:?} to {:?}", a, t)),
+                }
             }
             Expr::Struct(st) => {
                 if last_ident(&st.path) != "BidiMatchedOpeningBracket" || st.rest.is_some() {
@@ -825,6 +851,12 @@ impl<'a> Tr<'a> {
                 return Err("call to a `&mut self` method in expression position".into());
             }
             self.done.get(&fi.key).cloned().ok_or(format!("call to `{}` which is not translated", fi.rust))?
+        } else if rty == Ty::Slice(Box::new(Ty::U16)) {
+            self.done
+                .iter()
+                .find(|((l, n), _)| l.as_deref() == Some("TextSource_for_u16slice") && *n == name)
+                .map(|(_, c)| c.clone())
+                .ok_or(format!("call to <[u16] as TextSource>::{} which is not translated", name))?
         } else if rty == Ty::Level {
             self.all_done
                 .iter()
@@ -1900,7 +1932,15 @@ fn collect(repo: &Path, rel: &str) -> R<FileCtx> {
     let f = parse(repo, rel)?;
     let stem = Path::new(rel).file_stem().unwrap().to_string_lossy().to_string();
     let stem = if stem == "mod" { "char_data".to_string() } else { stem };
-    let mut ctx = FileCtx { stem: stem.clone(), int_consts: int_consts(&f), other_consts: BTreeMap::new(), const_types: BTreeMap::new(), enums: BTreeMap::new(), fns: vec![] };
+    let mut ctx = FileCtx { stem: stem.clone(), int_consts: int_consts(&f), other_consts: BTreeMap::new(), const_types: BTreeMap::new(), enums: BTreeMap::new(), fns: vec![], structs: BTreeMap::new() };
+    for it in &f.items {
+        if let Item::Struct(st) = it {
+            if let syn::Fields::Named(nf) = &st.fields {
+                let fields: Vec<(String, Ty)> = nf.named.iter().map(|fd| (fd.ident.as_ref().unwrap().to_string(), ty_of_type(&fd.ty, &st.generics))).collect();
+                ctx.structs.insert(st.ident.to_string(), fields);
+            }
+        }
+    }
     for it in &f.items {
         match it {
             Item::Const(c) => {
@@ -1918,7 +1958,14 @@ fn collect(repo: &Path, rel: &str) -> R<FileCtx> {
             }
             Item::Impl(im) => {
                 let (self_ty, self_t) = match &*im.self_ty {
-                    Type::Path(p) => (last_ident(&p.path), ty_of_type(&im.self_ty, &im.generics)),
+                    Type::Path(p) => {
+                        let n = last_ident(&p.path);
+                        if ctx.structs.contains_key(&n) {
+                            (n.clone(), Ty::Struct(n))
+                        } else {
+                            (n, ty_of_type(&im.self_ty, &im.generics))
+                        }
+                    }
                     Type::Slice(sl) => match ty_of_type(&sl.elem, &im.generics) {
                         Ty::U16 => ("u16slice".to_string(), Ty::Slice(Box::new(Ty::U16))),
                         _ => continue,
@@ -2023,6 +2070,10 @@ pub const FUNCS: &[(&str, &str, &str)] = &[
     ("implicit", "", "resolve_levels"),
     ("utf16", "TextSource_for_u16slice", "char_at"),
     ("utf16", "TextSource_for_u16slice", "char_len"),
+    ("utf16", "Iterator_for_Utf16IndexLenIter", "next"),
+    ("utf16", "Iterator_for_Utf16CharIndexIter", "next"),
+    ("utf16", "Iterator_for_Utf16CharIter", "next"),
+    ("utf16", "DoubleEndedIterator_for_Utf16CharIter", "next_back"),
 ];
 
 pub fn translate_all(repo: &Path, report: &mut Report) -> String {
@@ -2180,6 +2231,21 @@ fn translate_fn(
     all_done: &BTreeMap<(String, Option<String>, String), (String, Ty)>,
     f: &FnInfo,
 ) -> R<String> {
+    // a method of a named-field struct: the fields are the parameters; the scalar ones are state that is returned
+    let mut fcopy;
+    let f = if let Ty::Struct(sn) = &f.self_ty {
+        fcopy = f.clone();
+        let mut ps: Vec<(String, Ty, bool)> = ctx.structs[sn]
+            .iter()
+            .map(|(n, t)| (format!("self_{}", n), t.clone(), f.mut_self && !matches!(t, Ty::Slice(_))))
+            .collect();
+        ps.extend(f.params.iter().cloned());
+        fcopy.params = ps;
+        &fcopy
+    } else {
+        f
+    };
+    let is_struct = matches!(f.self_ty, Ty::Struct(_));
     let mut tr = Tr {
         file: ctx,
         done,
@@ -2193,7 +2259,7 @@ fn translate_fn(
     };
     let mut nf = NeedsFlow { yes: f.params.iter().any(|p| p.2) };
     nf.visit_block(&f.item);
-    let flow_mode = nf.yes && !f.mut_self;
+    let flow_mode = (nf.yes || is_struct) && (!f.mut_self || is_struct);
     let body = if flow_mode {
         // the trailing expression is the function's value: make it an explicit `return`
         let mut ss: Vec<Stmt> = f.item.stmts.clone();
@@ -2219,7 +2285,7 @@ fn translate_fn(
     if generic_text {
         ps.push_str(" (ts : rs_text_source)");
     }
-    if f.has_self {
+    if f.has_self && !is_struct {
         ps.push_str(&format!(" (self_ : {})", ty_coq(&f.self_ty)));
     }
     for (n, t, _) in &f.params {
@@ -2233,6 +2299,7 @@ fn translate_fn(
             Ty::Slice(e) => match **e {
                 Ty::Level | Ty::U8 | Ty::Word => "list nat".to_string(),
                 Ty::Class => "list bclass".to_string(),
+                Ty::U16 | Ty::Char => "list N".to_string(),
                 _ => "_".to_string(),
             },
             _ => "_".to_string(),
